@@ -12,7 +12,22 @@ typedef u8* ptr_t;
 #define ll_assume(c) ((void)0)   /* llvm.assume is never trusted */
 #define ll_unreachable() do { __CPROVER_assert(0, "llvm unreachable reached"); __CPROVER_assume(0); } while (0)
 #define ll_trap() do { __CPROVER_assert(0, "llvm.trap reached"); __CPROVER_assume(0); } while (0)
+/* Floating-point operations that a constant expression may not contain ([expr.pre]/4: result not mathematically defined / not representable).
+   Emitted by ll2c.py only for llvm.experimental.constrained.* with "fpexcept.strict", i.e. for TUs that ask for strict FP semantics
+   (family ce_fp, C13: `#pragma clang fp exceptions(strict)` keeps every source-level operation). Measured with g++ 12 / clang++ 16:
+   both reject x/0, inf-inf, 0*inf, 0/0 and out-of-range float->integer conversions; clang rejects every NaN result (also NaN operands);
+   gcc rejects overflow to infinity. Exactly one obligation fails per operation (each stops the path). */
+#define LL_CEFP_INF(x) ((double)(x) == __builtin_inf() || (double)(x) == -__builtin_inf())
+#define LL_CEFP_ARITH(r, a, b, isdiv) do { \
+    if ((isdiv) && (b) == 0) LL_UBSAN("constexpr-fp:division by zero (not a constant expression: gcc, clang)"); \
+    if ((r) != (r) && (a) == (a) && (b) == (b)) LL_UBSAN("constexpr-fp:invalid operation, NaN from non-NaN operands (not a constant expression: gcc, clang)"); \
+    if ((r) != (r)) LL_UBSAN("constexpr-fp:NaN operand gives a NaN result (not a constant expression: clang)"); \
+    if (LL_CEFP_INF(r) && !LL_CEFP_INF(a) && !LL_CEFP_INF(b)) LL_UBSAN("constexpr-fp:overflow to infinity (not a constant expression: gcc)"); } while (0)
+#define LL_CEFP_CAST(inrange) do { if (!(inrange)) LL_UBSAN("constexpr-fp:float to integer conversion out of range (not a constant expression: gcc, clang)"); } while (0)
 #else
+/* natively nothing is constant-evaluated: the obligations above exist in the solver model only */
+#define LL_CEFP_ARITH(r, a, b, isdiv) ((void)0)
+#define LL_CEFP_CAST(inrange) ((void)0)
 void vf_assert_rt(int c, const char* msg); void vf_assume_rt(int c); void vf_witness_rt(const char* msg); void vf_fatal_rt(const char* msg);
 #define VF_ASSERT(c, msg) vf_assert_rt((c), msg)
 #define VF_ASSUME(c) vf_assume_rt(c)
